@@ -20,8 +20,13 @@ def units(tier):
         E("vp_main_roundtrip_array0", "AbstractArray<int> size 0: size word + getView read back", uw=10),
         E("vp_main_roundtrip_array1", "AbstractArray<int> size 1", uw=10),
         E("vp_main_roundtrip_array2", "AbstractArray<int> size 2", uw=10),
+        E("vp_main_roundtrip_str0", "std::string of length 0 round trip", uw=10),
+        E("vp_main_roundtrip_str1", "std::string of length 1 (any byte incl. NUL) round trip", uw=10),
+        E("vp_main_roundtrip_str2", "std::string of length 2 round trip", uw=10),
+        E("vp_main_roundtrip_cstr", "C string written, std::string read", uw=10),
+    ] + ([] if q else [E("vp_main_roundtrip_str3", "std::string of length 3 round trip", uw=10)]) + [
         E("vp_main_truncation", "every truncation point of a 5-byte stream throws", uw=10),
     ]
-    return [CbmcUnit("stream", "harness/C15_stream.cpp", entries, defines=["CAPMAX=%d" % cap], heap_max=64, object_bits=10,
-                     assumptions=["allocation never fails", "capacity <= %d" % cap, "std::string payloads: see unit stream_str"],
+    return [CbmcUnit("stream", "harness/C15_stream.cpp", entries, defines=["CAPMAX=%d" % cap], heap_max=64, object_bits=10, mem_unwind=40,
+                     assumptions=["allocation never fails", "capacity <= %d" % cap, "std::string payloads of length <= 2 (quick) / 3 (thorough) with every byte value, via the libstdc++ string model; vector<string> not covered"],
                      stubs=["operator new/delete = malloc/free model", "std::runtime_error ctor/dtor: type tag only"])]
